@@ -2,6 +2,7 @@ package driver
 
 import (
 	"fmt"
+	"strings"
 
 	"verif/sim/kernel"
 	"verif/sim/replay"
@@ -20,6 +21,10 @@ func Check(verifDir, prop, tier string, seed uint64) (int, error) {
 		return CheckSign(e, prop)
 	case "C18", "C03":
 		return CheckPool(e, prop)
+	case "C20":
+		return CheckConc(e)
+	case "C19":
+		return CheckC19(e)
 	}
 	return 2, harnessErr("property %s is not claimed by this machinery (see MANIFEST.json not_applicable)", prop)
 }
@@ -46,6 +51,31 @@ func Replay(verifDir, path string) (int, error) {
 		return 2, err
 	}
 	defer e.Cleanup()
+	if rf.World == "conc" {
+		return replayConcFile(e, rf, path)
+	}
+	if rf.Variant == "asm+purego" {
+		binA, err := e.Build(simrunAsm)
+		if err != nil {
+			return 2, err
+		}
+		binP, err := e.Build(simrunPurego)
+		if err != nil {
+			return 2, err
+		}
+		ok, ra, rp := e.divergenceTrial(binA, binP, rf, rf.Tape, "replay")
+		if ra == nil || rp == nil {
+			return 2, harnessErr("replay failed")
+		}
+		fmt.Printf("asm digest:    %s\npurego digest: %s\n", ra.Digest, rp.Digest)
+		if ok {
+			i, x, y := firstDiff(ra.Trace, rp.Trace)
+			fmt.Printf("VIOLATION property=C19 replay=%s\n  class=build-divergence first differing record #%d\n  asm:    %s\n  purego: %s\n", path, i, x, y)
+			return 1, nil
+		}
+		fmt.Printf("replay of %s: the two builds agree on the current tree\n", path)
+		return 0, nil
+	}
 	v, ok := variantByName(rf.World, rf.Variant)
 	if !ok {
 		return 2, harnessErr("unknown variant %q", rf.Variant)
@@ -78,6 +108,45 @@ func reportReplay(rf *replay.File, res *kernel.Result, path string) (int, error)
 	}
 	fmt.Printf("replay of %s did not reproduce %s/%s on the current tree\n", path, rf.Violation.Property, rf.Violation.Class)
 	return 0, nil
+}
+
+func replayConcFile(e *Env, rf *replay.File, path string) (int, error) {
+	overlay, sites, err := e.instrumentRepo()
+	if err != nil {
+		return 2, err
+	}
+	base := strings.TrimSuffix(rf.Variant, "-race")
+	plain, err := e.Build(concVariant(base, overlay))
+	if err != nil {
+		return 2, err
+	}
+	res, j, err := e.replayConc(plain, base, rf, rf.Tape, "replay", sites)
+	if err != nil || res == nil {
+		msg := ""
+		if j != nil {
+			msg = j.Stderr
+		}
+		return 2, harnessErr("replay failed: %v\n%s", err, msg)
+	}
+	for _, line := range res.Trace {
+		fmt.Println(line)
+	}
+	fmt.Printf("history digest: %s  schedule signature: %s\n", res.Digest, res.Sig)
+	if rf.Violation.Class == "data-race" {
+		raceBin, err := e.Build(concVariant(base+"-race", overlay))
+		if err != nil {
+			return 2, err
+		}
+		ok, report := e.raceTrial(raceBin, base, rf, rf.Tape, "replay", sites)
+		if ok {
+			key, _, summary := parseRace(report)
+			fmt.Printf("VIOLATION property=%s replay=%s\n  class=data-race key=%s\n  %s\n", rf.Property, path, key, strings.ReplaceAll(summary, "\n", "\n  "))
+			return 1, nil
+		}
+		fmt.Printf("replay of %s under the race detector did not reproduce a data race on the current tree\n", path)
+		return 0, nil
+	}
+	return reportReplay(rf, res, path)
 }
 
 // SelfTest is filled in by selftest.go.
